@@ -1,0 +1,7 @@
+//go:build !verif
+
+package imapclient
+
+// verifPoint marks a linearization point for the external verification
+// harness. It is a no-op unless the package is built with the verif tag.
+func verifPoint(point, tag string) {}
